@@ -482,6 +482,15 @@ impl C17 {
 
     /// functional relation graph: f[i] = n means absolute, otherwise relative to instance f[i]
     fn run_place(&self, f: &[usize], listing: &[usize], key: &str, cx: &mut Cx) {
+        self.run_place_listed(f, listing, listing.len(), key, cx);
+        if listing.len() >= 2 {
+            // the last instance of the listing exists but is not listed in the layout: it takes part only if some
+            // listed instance is placed relative to it (directly or through a chain)
+            self.run_place_listed(f, listing, listing.len() - 1, key, cx);
+            cx.tag("place-order-unlisted-target");
+        }
+    }
+    fn run_place_listed(&self, f: &[usize], listing: &[usize], nlisted: usize, key: &str, cx: &mut Cx) {
         use tetris::{instance::Instance, layout::Layout, outline::Outline, placement::*};
         cx.stats.executions += 1;
         cx.stats.transitions += listing.len() as u64;
@@ -492,13 +501,15 @@ impl C17 {
                 g.adj[i] |= 1 << f[i];
             }
         }
+        let sfx = if nlisted == listing.len() { "" } else { "-unlisted-target" };
+        let listed: Vec<usize> = listing[..nlisted].to_vec();
         let mut lib = tetris::library::Library::new("plib");
         let unit = lib.cells.add(Layout::new("unit", 0, Outline::rect(3, 7).unwrap()));
         let mut parent = Layout::new("parent", 0, Outline::rect(100, 100).unwrap());
         let mut iptrs: Vec<Option<Ptr<Instance>>> = vec![None; n];
-        for &i in listing {
+        for (k, &i) in listing.iter().enumerate() {
             let inst = Instance { inst_name: format!("i{i}"), cell: unit.clone(), loc: (10 * i as isize, 5).into(), reflect_horiz: false, reflect_vert: false };
-            iptrs[i] = Some(parent.instances.add(inst));
+            iptrs[i] = Some(if k < nlisted { parent.instances.add(inst) } else { Ptr::new(inst) });
         }
         for i in 0..n {
             if f[i] < n {
@@ -507,21 +518,62 @@ impl C17 {
             }
         }
         lib.cells.add(parent);
-        let res = guard(|| tetris::placer::Placer::place(lib, Self::empty_stack()).map(|_| ()).map_err(|e| format!("{e:?}")));
+        // the placed layout lists its instances in placement order
+        let res = guard(|| {
+            tetris::placer::Placer::place(lib, Self::empty_stack())
+                .map(|(l, _)| {
+                    let mut names: Vec<String> = vec![];
+                    for c in l.cells.iter() {
+                        let c = c.read().unwrap();
+                        if c.name == "parent" {
+                            if let Some(lay) = &c.layout {
+                                names = lay.instances.iter().map(|i| i.read().unwrap().inst_name.clone()).collect();
+                            }
+                        }
+                    }
+                    names
+                })
+                .map_err(|e| format!("{e:?}"))
+        });
         cx.stats.evaluations += 1;
-        let all: Vec<usize> = (0..n).collect();
-        let cyclic = g.cyclic_within(g.reachable(&all));
-        let all_abs = || iptrs.iter().all(|p| matches!(p.as_ref().unwrap().read().unwrap().loc, Place::Abs(_)));
+        let reach = g.reachable(&listed);
+        let cyclic = g.cyclic_within(reach);
+        let all_abs = || (0..n).filter(|i| reach & (1 << i) != 0).all(|i| matches!(iptrs[i].as_ref().unwrap().read().unwrap().loc, Place::Abs(_)));
         match res {
-            Err(p) => cx.fail(key, "place-order-panic", None, || format!("Placer::place {} on relation graph {f:?} listing {listing:?}", p.short()), || Value::Null),
+            Err(p) => cx.fail(key, &format!("place-order-panic{sfx}"), None, || format!("Placer::place {} on relation graph {f:?} listing {listed:?}", p.short()), || Value::Null),
             Ok(Err(_)) if cyclic => cx.outcome("cycle-error"),
-            Ok(Err(e)) => cx.fail(key, "place-order-spurious-error", None, || format!("Placer::place rejected acyclic relation graph {f:?} listing {listing:?}: {}", truncate(&e, 160)), || Value::Null),
-            Ok(Ok(())) if cyclic => cx.fail(key, "place-order-cycle-accepted", None, || format!("Placer::place accepted cyclic relation graph {f:?} listing {listing:?}"), || Value::Null),
-            Ok(Ok(())) => {
-                if all_abs() {
-                    cx.outcome("ordered")
+            Ok(Err(e)) => cx.fail(key, &format!("place-order-spurious-error{sfx}"), None, || format!("Placer::place rejected acyclic relation graph {f:?} listing {listed:?}: {}", truncate(&e, 160)), || Value::Null),
+            Ok(Ok(_)) if cyclic => cx.fail(key, &format!("place-order-cycle-accepted{sfx}"), None, || format!("Placer::place accepted cyclic relation graph {f:?} listing {listed:?}"), || Value::Null),
+            Ok(Ok(names)) => {
+                if !all_abs() {
+                    cx.fail(key, &format!("place-order-incomplete{sfx}"), None, || format!("after Placer::place some instance of relation graph {f:?} listing {listed:?} is still relative"), || Value::Null)
                 } else {
-                    cx.fail(key, "place-order-incomplete", None, || format!("after Placer::place some instance of relation graph {f:?} listing {listing:?} is still relative"), || Value::Null)
+                    // the placement order: exactly the reachable instances, each once, every one after its reference
+                    let order: Vec<usize> = names.iter().map(|s| s.trim_start_matches('i').parse::<usize>().unwrap_or(usize::MAX)).collect();
+                    let mut bad: Option<String> = None;
+                    let mut seen = 0u8;
+                    for &i in &order {
+                        if i >= n || reach & (1 << i) == 0 {
+                            bad = Some(format!("lists {:?}, which is not reachable from the listing", names));
+                            break;
+                        }
+                        if seen & (1 << i) != 0 {
+                            bad = Some(format!("instance i{i} listed twice"));
+                            break;
+                        }
+                        if f[i] < n && seen & (1 << f[i]) == 0 {
+                            bad = Some(format!("instance i{i} comes before the instance i{} it is placed relative to", f[i]));
+                            break;
+                        }
+                        seen |= 1 << i;
+                    }
+                    if bad.is_none() && seen != reach {
+                        bad = Some("an instance reachable from the listing is missing".to_string());
+                    }
+                    match bad {
+                        None => cx.outcome("ordered"),
+                        Some(why) => cx.fail(key, &format!("place-order-bad-order{sfx}"), None, || format!("relation graph {f:?} listing {listed:?}: placement order {names:?}: {why}"), || Value::Null),
+                    }
                 }
             }
         }
@@ -576,10 +628,10 @@ impl Driver for C17 {
         let m = tier.pick(3, 4);
         Describe {
             rule: format!(
-                "generic utils::DepOrder: every labelled digraph on 1..=4 nodes including self-loops (2^(n*n)) x every ordered non-empty sub-list of the nodes as the item slice (so reachable != all); every loop-free digraph on 5 nodes (2^20) x {} listing orders. Embedded orderers through public entry points, every digraph on 1..={m} nodes with self-loops x every listing permutation, edges realised as instances / SREF+AREF / relative placements, raw and tetris graphs additionally with every sink cell abstract-only (no layout view) and with every cell holding both an abstract and a layout view: raw DepOrder::order and Library::to_proto (cell list order), Library::from_gds (imported cell order), tetris Library::dep_order, tetris ProtoExporter::export, Placer::place (cell graph), and Placer::place over every functional relation graph on 1..={m} instances ((n+1)^n: chains, stars, trees, self-loops, cycles) x every listing permutation. A state is (orderer, graph, listing); non-trivial = graph has at least one edge. Oracle: reachable set by DFS, cycle by Kahn elimination; Ok order must be exactly the reachable set, duplicate-free, every node after all its dependencies; reachable cycle => Err.",
+                "generic utils::DepOrder: every labelled digraph on 1..=4 nodes including self-loops (2^(n*n)) x every ordered non-empty sub-list of the nodes as the item slice (so reachable != all); every loop-free digraph on 5 nodes (2^20) x {} listing orders. Embedded orderers through public entry points, every digraph on 1..={m} nodes with self-loops x every listing permutation, edges realised as instances / SREF+AREF / relative placements, raw and tetris graphs additionally with every sink cell abstract-only (no layout view) and with every cell holding both an abstract and a layout view: raw DepOrder::order and Library::to_proto (cell list order), Library::from_gds (imported cell order), tetris Library::dep_order, tetris ProtoExporter::export, Placer::place (cell graph), and Placer::place over every functional relation graph on 1..={m} instances ((n+1)^n: chains, stars, trees, self-loops, cycles) x every listing permutation, each also with the last listed instance present but not listed in the layout (reachable only through a relation). A state is (orderer, graph, listing); non-trivial = graph has at least one edge. Oracle: reachable set by DFS, cycle by Kahn elimination; Ok order must be exactly the reachable set, duplicate-free, every node after all its dependencies; reachable cycle => Err.",
                 if tier.is_thorough() { "all 120" } else { "8 (identity, reverse, 4 rotations, one shuffle)" }
             ),
-            assumptions: vec!["Placer::place returns the placed library, not the order: only Ok/Err, completeness (all instances absolute) are judged there".into()],
+            assumptions: vec!["Placer::place over a cell graph returns the placed library, not the cell order: only Ok/Err and the cell set are judged there; over a relation graph the placed layout lists its instances in placement order, which is judged like every other ordering".into()],
             excluded: vec!["graphs beyond 5 nodes (thorough supplement: none; depth-of-recursion behaviour on long chains is covered by a 2000-cell chain per orderer)".into()],
             technique: "exhaustive enumeration of all small digraphs x listing orders on the real orderers vs reachability/cycle/topological-order reference".into(),
         }
@@ -793,7 +845,7 @@ impl Driver for C17 {
         None
     }
     fn guards(&self, tier: Tier, stats: &Stats, _d: u64) -> Result<(), String> {
-        require_tags(stats, &["raw-abstract-only-sinks", "tetris-abstract-only-sinks", "raw-both-views", "tetris-both-views", "part-g", "part-g-n4", "part-g-n5", "part-r-n3", "part-d-n3", "part-t-n3", "part-p-n3", "chain"])?;
+        require_tags(stats, &["raw-abstract-only-sinks", "tetris-abstract-only-sinks", "raw-both-views", "tetris-both-views", "part-g", "part-g-n4", "part-g-n5", "part-r-n3", "part-d-n3", "part-t-n3", "part-p-n3", "place-order-unlisted-target", "chain"])?;
         if tier.is_thorough() {
             require_tags(stats, &["part-r-n4", "part-d-n4", "part-t-n4", "part-p-n4"])?;
         }
